@@ -118,6 +118,64 @@ def mc_module(workdir, name, cfgs, prop, keep_obs=True):
                  extends=("Callbag", "CallbagProps"), print_beh=False)
 
 
+def situations(obs):
+    """which situations relevant to the properties' antecedents occur in a trace (vacuity evidence:
+    a clause whose antecedent never occurs in any explored trace decides nothing)"""
+    tags = set()
+    stack = []
+    sink_disposed = set()
+    sink_ended = set()
+    u_ended = set()
+    u_stopped = set()
+    for e in obs:
+        k = e["k"]
+        if k == "c":
+            fr, to, t = e["fr"], e["to"], e["t"]
+            depth = len(stack)
+            if fr.startswith("K") and t in ("T", "E"):
+                tags.add("sink_disposes_nested" if depth else "sink_disposes_top")
+                if t == "E":
+                    tags.add("sink_disposes_with_error")
+                if stack and stack[-1][1] == fr and stack[-1][2] == "H":
+                    tags.add("sink_disposes_in_greeting")
+                sink_disposed.add(fr)
+            if fr.startswith("K") and t == "P":
+                tags.add("sink_pulls_nested" if depth else "sink_pulls_top")
+            if fr.startswith("U") and t == "E":
+                tags.add("upstream_fails_nested" if depth else "upstream_fails_top")
+                u_ended.add(fr)
+            if fr.startswith("U") and t == "T":
+                tags.add("upstream_completes_nested" if depth else "upstream_completes_top")
+                u_ended.add(fr)
+            if fr.startswith("U") and t == "D" and any(x[0].startswith("U") and x[2] in ("H", "D") for x in stack):
+                tags.add("emission_nested_in_upstream_delivery")
+            if fr.startswith("U") and t == "H" and not (stack and stack[-1][1] == fr and stack[-1][2] == "Sub"):
+                tags.add("late_greeting")
+            if to.startswith("U") and t in ("T", "E"):
+                if to in u_ended:
+                    tags.add("stop_sent_to_ended_upstream")
+                u_stopped.add(to)
+            if to.startswith("K") and t in ("T", "E"):
+                sink_ended.add(to)
+                tags.add("sink_receives_error" if t == "E" else "sink_receives_completion")
+            if to.startswith("K") and to in sink_disposed:
+                tags.add("delivery_after_disposal")
+            stack.append((fr, to, t))
+        elif k == "r":
+            if stack:
+                stack.pop()
+        elif k == "panic":
+            tags.add("panic")
+            stack = []
+        elif k == "top" and e["t"] == "fire":
+            tags.add("timer_fires")
+        elif k == "spawn" and e["t"] != "ok":
+            tags.add("spawn_fails")
+    if len({e["to"] for e in obs if e["k"] == "top" and e["t"] == "attach"}) > 1:
+        tags.add("two_subscriptions")
+    return tags
+
+
 def run_family(prop, name, cfgs, rand_cfg, binary, seed, tier, tlc_workers=3, rand_count=200,
                env_extra=None, dfs=True, twosub=False):
     """One scenario family = one TLC run over a batch of scenario cfgs (usually one).
@@ -184,6 +242,7 @@ def run_family(prop, name, cfgs, rand_cfg, binary, seed, tier, tlc_workers=3, ra
             return ck, "t" + obs_key(ck, [r["obs"], r.get("proj"), r.get("solo")])
         return ck, obs_key(ck, r["obs"])
 
+    sit = {}
     rand_recs = []
     rand_validate_max = 300 if tier == "quick" else 3000
     rand_ix = {json.dumps(c, sort_keys=True): i for i, c in enumerate(rcs)}
@@ -197,6 +256,9 @@ def run_family(prop, name, cfgs, rand_cfg, binary, seed, tier, tlc_workers=3, ra
             rid = str(r["id"])
             ck, k = trace_key(r)
             ntraces += 1
+            if k not in all_keys:
+                for tg in situations(r["obs"]):
+                    sit[tg] = sit.get(tg, 0) + 1
             all_keys.add(k)
             if rid.startswith(name + ".m"):
                 replayed += 1
@@ -270,6 +332,7 @@ def run_family(prop, name, cfgs, rand_cfg, binary, seed, tier, tlc_workers=3, ra
                 if k in bad_keys and len(hits) < 2000:
                     hits.append(dict(id=r["id"], cfg=r["cfg"], script=r["script"], obs=r["obs"], w=verdict[k]))
     res["impl_traces"] = ntraces
+    res["situations"] = sit
     res["distinct_impl_traces"] = len(all_keys)
     res["hits"] = hits
     res["model_behaviours_with_witnesses"] = sum(1 for b in beh if b["w"])
@@ -511,6 +574,14 @@ def write_replay(prop, v, idx):
     return path
 
 
+def _sum_sit(results):
+    out = {}
+    for r in results:
+        for k, v in (r.get("situations") or {}).items():
+            out[k] = out.get(k, 0) + v
+    return dict(sorted(out.items()))
+
+
 def write_evidence(prop, tier, seed, results, violations, known, wall, extra=None, assumptions=None):
     cov = dict(
         states=sum(r.get("states", 0) for r in results),
@@ -537,6 +608,7 @@ def write_evidence(prop, tier, seed, results, violations, known, wall, extra=Non
                   for r in results},
         samples=[r["sample"] for r in results if r.get("sample")][:3],
         known_findings_seen=known,
+        distinct_traces_containing_situation=_sum_sit(results),
     )
     if extra:
         cov.update(extra)
